@@ -267,7 +267,7 @@ func c13Hist(e *env, r *rng) {
 	periods := []int64{10, 60, 60}
 	// the first 14 are single-field mutations (used by "multi"); the tail repeats the kinds that keep the topology
 	kinds := []string{"hb", "hb", "state", "hbstate", "tokens", "zone", "addr", "reg", "ro", "rots", "versions", "versions", "add", "remove", "equal", "equalsame", "rename", "multi",
-		"hb", "hb", "hb", "state", "state", "hbstate", "versions", "versions", "equal", "hb", "state", "hbstate"}
+		"hb", "hb", "hb", "state", "state", "hbstate", "versions", "versions", "equal", "hb", "state", "hbstate", "emptyzone", "emptyzone"}
 	for k := 0; k < nSteps; k++ {
 		if r.chance(1, 3) {
 			// ---- update ----
@@ -334,6 +334,20 @@ func c13Hist(e *env, r *rng) {
 						}
 					}
 					i.Versions = m
+				case "emptyzone":
+					// a zone loses its last instance: the client has seen a zone that no longer exists
+					zs := map[string]bool{}
+					for _, j := range nd.Ingesters {
+						zs[j.Zone] = true
+					}
+					if len(zs) > 1 {
+						for _, y := range ids {
+							if j, ok := nd.Ingesters[y]; ok && j.Zone == i.Zone {
+								delete(nd.Ingesters, y)
+							}
+						}
+					}
+					return
 				case "remove":
 					if len(nd.Ingesters) > 1 || r.chance(1, 4) {
 						delete(nd.Ingesters, x)
@@ -597,7 +611,27 @@ func c13PHist(e *env, r *rng) {
 		if err != nil {
 			panic(err)
 		}
-		if r.chance(1, 3) {
+		if r.chance(1, 4) {
+			// a shard of a shard: sub := ring.ShuffleShard(a, n); sub.ShuffleShard(b, m) (or …WithLookback). The
+			// sub-ring is a PartitionRing of its own; what it caches must never show up in the parent's answers.
+			a, n := pick(r, idents), pick(r, sizes)
+			b, m := pick(r, idents), pick(r, []int{1, 1, 2, 2, 3})
+			period := pick(r, []int64{0, 0, 60})
+			now := c13Base + int64(r.intn(90)) - 30
+			q = []string{"Q", "N", a, itoa(n), b, itoa(m), strconv.FormatInt(period, 10), strconv.FormatInt(now, 10)}
+			nested := func(pr *ring.PartitionRing) string {
+				sub, err := pr.ShuffleShard(a, n)
+				if err != nil {
+					return "err"
+				}
+				if period == 0 {
+					return c13PAnswer(sub.ShuffleShard(b, m))
+				}
+				return c13PAnswer(sub.ShuffleShardWithLookback(b, m, time.Duration(period)*time.Second, time.Unix(now, 0)))
+			}
+			longA = append(longA, nested(long))
+			freshA = append(freshA, nested(fresh))
+		} else if r.chance(1, 3) {
 			size := pick(r, sizes)
 			q = []string{"Q", "S", pick(r, idents), itoa(size)}
 			a, err := long.ShuffleShard(q[2], size)
